@@ -69,6 +69,7 @@ class _Gate:
         self.pidmap = {}         # real pid (str) -> process index
         self.multi = False       # several stacks: call names carry "@<stack index>"
         self.users = {}          # process index (str) -> login name the locker runs under (None: the real one)
+        self.readonly = ()       # stack indices whose lock directory this locker cannot make (mkdir: EACCES)
 
     def say(self, what):
         real_os.write(self.wfd, (what + "\n").encode())
@@ -135,6 +136,11 @@ def _install_proxies(lock, g):
         def mkdir(self, p, *a, **kw):
             if _in_lockdir(p) is None:
                 return real_os.mkdir(p, *a, **kw)
+            if _stack_index(p) in g.readonly:
+                # a stack this locker may not write to (the harness runs as root, so the refusal is made up here)
+                def refuse():
+                    raise OSError(errno.EACCES, "Permission denied", p)
+                return gated("mkdir", refuse, path=p)
             return gated("mkdir", lambda: real_os.mkdir(p, *a, **kw), path=p)
 
         def makedirs(self, p, *a, **kw):
@@ -294,6 +300,7 @@ def _child(spec, rfd, wfd):
         g.pidmap = init["pidmap"]
         g.multi = bool(init.get("multi"))
         g.users = init.get("users") or {}
+        g.readonly = tuple(spec.get("ro") or ())
         real_os.environ.pop("EUPS_LOCK_PID", None)
         if init.get("lock_pid") is not None:
             real_os.environ["EUPS_LOCK_PID"] = str(init["lock_pid"])
@@ -574,7 +581,8 @@ def run_schedule(case, phases=None):
     snap0 = [_snapshot(st) for st in stacks] if multi and stacks and os.path.isdir(os.path.join(stacks[0], "ups_db")) else None
     specs = case["procs"]
     n = len(specs)
-    paths = [list(sp.get("path", [0])) for sp in specs]
+    # the stacks a locker can lock: its path without those it cannot write to (there takeLocks proceeds without a lock)
+    paths = [[d for d in sp.get("path", [0]) if d not in (sp.get("ro") or [])] for sp in specs]
     procs = []
     try:
         def subst(a):
@@ -586,10 +594,11 @@ def run_schedule(case, phases=None):
         for i, sp in enumerate(specs):
             argv = [subst(a) for a in sp["argv"]] if sp.get("argv") is not None else None
             # a command line finds its stacks itself: $EUPS_PATH (env_path) and -Z/-z; `path` is what it should lock
-            dirs = [stacks[d] for d in (sp.get("env_path", paths[i]) if argv is not None else paths[i])]
+            full = list(sp.get("path", [0]))
+            dirs = [stacks[d] for d in (sp.get("env_path", full) if argv is not None else full)]
             procs.append(Proc(i, {"kind": sp["kind"], "dirs": dirs, "ntry": sp.get("tries", 0) + 1,
                                   "explicit": sp.get("explicit", True), "base": base, "argv": argv,
-                                  "user": sp.get("user")}))
+                                  "user": sp.get("user"), "ro": list(sp.get("ro") or [])}))
         pidmap = {str(p.pid): p.index for p in procs}
         users = {str(i): sp.get("user") for i, sp in enumerate(specs)}
         for p, sp in zip(procs, specs):
